@@ -47,5 +47,9 @@ use std::sync::Arc;"""),
         Fn(L, "hash", impl="Covenant", home="C12", implicit_props=("C09", "C12"),
            requires=[C("encodable", "enc_all(self@) is Some")],
            ensures=[C("hash", "res == Address(h1(enc_all(self@)->Some_0))", "C12", "C04")]),
+        Fn(L, "covenant_weight_from_bytes", home="C05", implicit_props=("C09", "C05", "C11"),
+           ensures=[C("weight", "res as int == (match dec_all(b@) { Some(ops) => spec_weight(ops), None => 0 })", "C05", "C11",
+                      note="the weight a transaction is charged for a covenant: the weight of the decoded program, 0 for bytes that do not decode")],
+           closures=[Closure(0, "b: Covenant", "(r: u128)", ensures=[C("w", "r as int == spec_weight(b@)", "C05")])]),
     ],
 )
